@@ -27,9 +27,13 @@ Definition good_bin (op : binop) (a b : value) (n : nat) : trace * outcome :=
                      | VNum x, VNum y => ([], Val (VBool (num_eq x y)))
                      | _, _ => (t, Val (VBool false))
                      end
-       | BAdd => if is_str a || is_str b then (t, Val (VStr []))
+       | BAdd => match a, b with
+                 | VStr x, VStr y => ([], Val (VStr (x ++ y)))
+                 | _, _ =>
+                 if is_str a || is_str b then (t, Val (VStr []))
                  else if is_big a && is_big b then (t, Val (VBig 0))
                  else (t, Val zero_val)
+                 end
        | _ => (t, Val (VBool false))
        end.
 
@@ -69,18 +73,18 @@ Proof.
     destruct (is_rel op) eqn:Hr.
     + destruct a, b; inversion H; reflexivity.
     + destruct op; try discriminate; destruct a, b; inversion H; reflexivity.
-  - intros a b n t r H. cbn in H. fin.
-  - intros a b n t r H Hs. cbn in H. rewrite Hs in H. inversion H. reflexivity.
-  - intros a b n t r H Ha Hb. cbn in H. rewrite Ha, Hb in H.
-    destruct (is_str a || is_str b) eqn:E; [destruct a, b; discriminate|]. inversion H. reflexivity.
-  - intros a b n t r H Ha Hb. cbn in H.
-    destruct (is_str a || is_str b) eqn:E; [destruct a, b; discriminate|].
-    destruct (is_big a && is_big b) eqn:E2; [destruct a, b; discriminate|]. inversion H. reflexivity.
+  - (* ok_add_prim *) intros a b n t r H. destruct a, b; cbn in H; inversion H; reflexivity.
+  - (* ok_add_str *) intros a b n t r H Hs. destruct a, b; cbn in H, Hs; try discriminate; inversion H; reflexivity.
+  - (* ok_add_big *) intros a b n t r H Ha Hb. destruct a, b; cbn in H, Ha, Hb; try discriminate; inversion H; reflexivity.
+  - (* ok_add_plain *) intros a b n t r H Ha Hb. destruct a, b; cbn in H, Ha, Hb; try discriminate; inversion H; reflexivity.
   - intros op a b n Hr Ha Hb Hsa Hsb. rewrite Ha, Hb.
     destruct (is_arith op) eqn:E; [destruct op; discriminate|]. rewrite Hr.
     destruct a, b; eauto.
   - intros a b n Ha Hb. rewrite Ha, Hb. cbn. destruct a, b; eauto.
   - reflexivity.
+  - (* ok_add_str_str *) reflexivity.
+  - (* ok_add_indep_r *) intros a s1 s2 n. destruct a; cbn; auto.
+  - (* ok_add_indep_l *) intros b s1 s2 n. destruct b; cbn; auto.
   - reflexivity.
   - reflexivity.
   - reflexivity.
